@@ -1530,8 +1530,9 @@ pub fn calc_length(len_str: &str, timebase: isize, def_len: isize) -> isize {
             break;
         }
         cur.next(); // skip '^'
-        if cur.eq_char('%') {
-            step_mode = true;
+        // '%' applies to the part it is written on (it is not inherited from an earlier part)
+        step_mode = cur.eq_char('%');
+        if step_mode {
             cur.next();
         }
         if cur.is_numeric() || cur.eq_char('-') {
